@@ -264,7 +264,12 @@ where
 
     fn run(&self, prop: &str, seed: u64, tier: Tier, known: &[KnownFinding]) -> PartReport {
         let t0 = Instant::now();
-        let total = (self.cases)(tier) as u64;
+        // the per-part counts are the base; the quick tier runs 6x the base (fixed work), VERIF_SCALE overrides
+        let scale: u64 = std::env::var("VERIF_SCALE").ok().and_then(|s| s.parse().ok()).unwrap_or(match tier {
+            Tier::Quick => 6,
+            Tier::Thorough => 1,
+        });
+        let total = (self.cases)(tier) as u64 * scale.max(1);
         let workers = self.workers.max(1).min(total.max(1) as usize);
         let stop = Arc::new(AtomicBool::new(false));
         struct Shared {
@@ -347,7 +352,7 @@ where
                                             format!("{c:?}").hash(&mut h);
                                             l.hashes.insert(h.finish());
                                         }
-                                        if w == 0 && l.samples.len() < 3 && (v.nontrivial || l.evals > 20) {
+                                        if l.samples.len() < 2 && (v.nontrivial || l.evals > 20) {
                                             l.samples.push(serde_json::to_value(&c).unwrap_or(Value::Null));
                                         }
                                     }
@@ -380,8 +385,10 @@ where
                                 *s.labels.entry(lab.to_string()).or_default() += n;
                             }
                             s.hashes.extend(l.hashes);
-                            if s.samples.is_empty() {
-                                s.samples = l.samples;
+                            for smp in l.samples {
+                                if s.samples.len() < 3 {
+                                    s.samples.push(smp);
+                                }
                             }
                             s.known_hits.extend(l.known_hits);
                         }
